@@ -193,7 +193,7 @@ class Check(object):
                 elif r["verdict"] != "proved":
                     open_names.add(o.name)
             if open_names:
-                ref, und = self.finite_scope(g, reg, open_names, rows)
+                ref, und = self.finite_scope_guarded(g, reg, open_names, rows)
                 refuted.extend(ref)
                 undecided.extend(und)
         # static checks on source literals (python evaluation of constants re-read from the source on every run)
@@ -208,6 +208,42 @@ class Check(object):
         return self.report(errors, refuted, undecided, all_rows, functions, notes, n_covers_bad, solver_s, backends, assumptions)
 
     # ------------------------------------------------------------------------------------------
+    def finite_scope_guarded(self, g, reg, open_names, rows):
+        """The counter-model search runs in a forked child under a hard wall-clock limit: it is best effort, and a search that does not come
+        back leaves its obligations open (the lock rule then decides between VIOLATION ... no-failing-input-found and UNDECIDED)."""
+        import multiprocessing
+        ctx = multiprocessing.get_context("fork")
+        rx, tx = ctx.Pipe(False)
+
+        def work():
+            try:
+                res = self.finite_scope(g, reg, open_names, rows)
+            except BaseException as e:      # noqa
+                res = ("error", "%s: %s" % (type(e).__name__, e))
+            try:
+                tx.send(res)
+            finally:
+                tx.close()
+        p = ctx.Process(target=work)
+        p.start()
+        limit = (180 if self.tier == "quick" else 900) + 150
+        res = rx.recv() if rx.poll(limit) else None
+        p.join(5)
+        if p.is_alive():
+            p.terminate()
+        if isinstance(res, tuple) and len(res) == 2 and res[0] != "error":
+            return res
+        self.say("note: finite-scope search %s; its obligations stay open" % ("did not return within %d s" % limit if res is None else "failed: %s" % (res[1],)))
+        clause_of = dict((o.name, o.clause) for ur, o, r in rows)
+        refuted, undecided = {}, []
+        for ur, o, r in rows:
+            if o.name in open_names and r["verdict"] == "refuted" and o.name not in refuted:
+                refuted[o.name] = dict(obligation=o.name, clause=o.clause, kind=o.kind, scope=None, trace=o.trace, model={}, solver=r.get("backend"), full_scope="sat")
+        for n in sorted(open_names):
+            if n not in refuted:
+                undecided.append(dict(obligation=n, reason="finite-scope search did not finish", clause=clause_of.get(n, "")))
+        return list(refuted.values()), undecided
+
     def finite_scope(self, g, reg, open_names, rows):
         """Re-generate the units that have open obligations at finite scope 1..max and look for counter-models."""
         open_units = sorted(set(ur.name for ur, o, r in rows if o.name in open_names))
